@@ -420,7 +420,7 @@ WORKER_RETRIES = []     # chunks that were given to a fresh worker process after
 
 
 def run_workers(worker_module, jobs, *, x64=False, devices=None, nproc=None, timeout=3600,
-                chunk=None, work=None):
+                chunk=None, work=None, retries=2):
   """Run `python -m <worker_module> <in.json> <out.json>` over chunks of `jobs`.
 
   The worker reads a JSON list of job dicts and writes a JSON list of result dicts
@@ -476,7 +476,7 @@ def run_workers(worker_module, jobs, *, x64=False, devices=None, nproc=None, tim
         # A fresh process gets the same chunk, twice at most; a deterministic crash still ends as a
         # machinery error (exit 2), never as a verdict.
         attempts[i] = attempts.get(i, 0) + 1
-        if attempts[i] <= 2:
+        if attempts[i] <= retries:
           WORKER_RETRIES.append(f"{worker_module} chunk {i} rc={rc}")
           pending.insert(0, (i, chunks[i]))
           continue
@@ -484,7 +484,7 @@ def run_workers(worker_module, jobs, *, x64=False, devices=None, nproc=None, tim
         for (_, q, *_r) in running:
           if q.poll() is None:
             q.kill()
-        raise MachineryError(f"worker {worker_module} chunk {i} rc={rc} (3 attempts)\n{tail}")
+        raise MachineryError(f"worker {worker_module} chunk {i} rc={rc} ({attempts[i]} attempts)\n{tail}")
       results[i] = done
       fi.unlink(missing_ok=True)
       fo.unlink(missing_ok=True)
